@@ -353,7 +353,9 @@ def run(seed=0, tier='quick', hints=None, broken=False):
                     case = {'name': name, 'kw': kw, 'dtype': dt, 'shape': rng.sample([5, 6, 7, 8, 9], 3),
                             'channels': rng.choice([None, None, 2]) if name not in ('GaussNoise',) else rng.choice([None, 2]),
                             'seed': rng.randint(0, 10 ** 6), 'flip_axis': rng.randrange(3)}
-                    todo = [case]
+                    # both channel layouts for EVERY configuration and dtype (a statistic taken over the wrong axes, a
+                    # kernel or table applied across the channel axis show only with the channel axis present)
+                    todo = [case, dict(case, channels=(None if case['channels'] else 2), seed=rng.randint(0, 10 ** 6))]
                     if name in SYMMETRIC:
                         # the neighbourhood filters also on a piecewise-constant volume; flat regions must be thicker
                         # than the filter radius (up to 3) to contain exact ties
